@@ -4,6 +4,8 @@
 #include <PhQ/Direction.hpp>
 #include <PhQ/PlanarDirection.hpp>
 
+#include <cerrno>
+
 #include "c10_common.hpp"
 using namespace PhQ;
 
@@ -102,6 +104,16 @@ void all(int part, int nparts) {
             break;
           }
       };
+      for (int stale : {ERANGE, EDOM}) {
+        // what an unrelated earlier call left in errno does not matter
+        errno = stale;
+        const Direction<T> de(s[0], s[1], s[2]);
+        errno = stale;
+        const Direction<T> dv(Vector<T>(s[0], s[1], s[2]));
+        errno = 0;
+        same("Direction(x,y,z) with stale errno", de);
+        same("Direction(Vector) with stale errno", dv);
+      }
       same("Direction(array)", Direction<T>(std::array<T, 3>{s[0], s[1], s[2]}));
       same("Direction(Vector)", Direction<T>(Vector<T>(s[0], s[1], s[2])));
       same("Vector.Direction()", Vector<T>(s[0], s[1], s[2]).Direction());
@@ -188,6 +200,19 @@ void all(int part, int nparts) {
             vf::stat("path_comparisons");
           }
     }
+    // 3-D -> 2-D with a non-zero third component (also directions that are nearly along z): the planar direction is the unit
+    // vector along the stored (x, y) of the direction
+    if (v[0] != 0 || v[1] != 0) {
+      const Direction<T> a3(v[0], v[1], v[2]);
+      const T xy[2] = {a3.x(), a3.y()};
+      const T m2 = std::fmax(std::fabs(xy[0]), std::fabs(xy[1]));
+      if (m2 != 0 && m2 * m2 > std::numeric_limits<T>::min() * 16) {
+        T pc[2];
+        vf::comps(PlanarDirection<T>(a3), pc);
+        c10::check_direction<T>("PlanarDirection(Direction with z != 0)", pc, xy, 2);
+        vf::stat("path_comparisons");
+      }
+    }
     // 3-D -> 2-D -> 3-D
     if (v[0] != 0 || v[1] != 0) {
       const Direction<T> a(v[0], v[1], (T)0);
@@ -238,6 +263,15 @@ void all(int part, int nparts) {
         if (std::fabs((double)(c[0] - d[0])) > 2 * (double)std::numeric_limits<T>::epsilon() || std::fabs((double)(c[1] - d[1])) > 2 * (double)std::numeric_limits<T>::epsilon())
           vf::viol(std::string("direction|path-disagrees|") + path + "|" + vf::TName<T>::value, "{\"input\":[" + vf::jstr(vf::hex(s[0])) + "," + vf::jstr(vf::hex(s[1])) + "]}");
       };
+      for (int stale : {ERANGE, EDOM}) {
+        errno = stale;
+        const PlanarDirection<T> de(s[0], s[1]);
+        errno = stale;
+        const PlanarDirection<T> dv(PlanarVector<T>(s[0], s[1]));
+        errno = 0;
+        same("PlanarDirection(x,y) with stale errno", de);
+        same("PlanarDirection(PlanarVector) with stale errno", dv);
+      }
       same("PlanarDirection(array)", PlanarDirection<T>(std::array<T, 2>{s[0], s[1]}));
       same("PlanarDirection(PlanarVector)", PlanarDirection<T>(PlanarVector<T>(s[0], s[1])));
       same("PlanarVector.PlanarDirection()", PlanarVector<T>(s[0], s[1]).PlanarDirection());
